@@ -97,6 +97,8 @@ func (s *scheduler) spawn(fn func(), pos string) *goroutineT {
 				s.finish("panic", fmt.Sprintf("goroutine %d: panic: %s", g.id, toString(p.v)))
 			case rtPanic:
 				s.finish("panic", fmt.Sprintf("goroutine %d: %s", g.id, string(p)))
+			case engineBug:
+				s.finish("engine-error", fmt.Sprintf("goroutine %d: %s at %s", g.id, string(p), cur.posString()))
 			case exitPanic:
 				s.finish("exit", fmt.Sprintf("%d", int(p)))
 			case error:
